@@ -150,8 +150,14 @@ def cmdEnc (args : List String) : String :=
   | some (e, []) =>
     match encodeFile e, encodeIndex e, denote e with
     | .ok f, .ok ix, .ok c =>
-      jObj [("ok", "true"), ("file", jHex f), ("index", jHex ix), ("wf", jBool (wellFormed e)), ("content", jContent c)]
-    | .error r, _, _ => jObj [("ok", "false"), ("reject", jStr (rejectName r))]
+      let ex := match explicit e with
+        | .ok e' => match encodeFile e' with
+          | .ok b => jHex b
+          | .error _ => "null"
+        | .error _ => "null"
+      jObj [("ok", "true"), ("file", jHex f), ("index", jHex ix), ("wf", jBool (wellFormed e)), ("content", jContent c),
+            ("explicit", ex)]
+    | .error r, _, _ => jObj [("ok", "false"), ("reject", jStr (rejectName r)), ("file", jHex (encodeForbidden e))]
     | _, .error r, _ => jObj [("ok", "false"), ("reject", jStr (rejectName r))]
     | _, _, .error r => jObj [("ok", "false"), ("reject", jStr (rejectName r))]
   | _ => jObj [("ok", "false"), ("reject", jStr "parse")]
